@@ -31,14 +31,14 @@ m = {
         "guard": "gmxsa_verif",
         "enable": "not used: the analysis reads the compiler's view (MIR/HIR) of the unmodified source; no instrumentation is compiled in",
         "baseline_off_cmd": "cd /repo && cargo test --workspace --no-fail-fast --offline",
-        "source_commits": kf.get("fix_commits", []),
+        "source_commits": [],
         "add_only": True,
     },
     "engines": [{"name": "gmxsa", "path": "/verif/check", "serves_properties": [c["property_id"] for c in checks],
                  "kind_free_text": "rustc_private fact extractor (driver/) run as RUSTC_WORKSPACE_WRAPPER under cargo +nightly check on /repo's current tree + Python rule engine over resolved MIR (gmxsa/)"}],
     "checks": checks,
     "not_applicable": na,
-    "notes": "Technique family: static analysis only. Every check re-extracts facts from /repo's working tree when its source digest changed (fail closed otherwise).",
+    "notes": "No hooks: hooks.source_commits is empty. Genuine defects repaired in /repo by unguarded `fix:` commits " + ", ".join(kf.get("fix_commits", [])) + " (recorded as `fixed:` in known-findings.json). Technique family: static analysis only. Every check re-extracts facts from /repo's working tree when its source digest changed (fail closed otherwise).",
 }
 json.dump(m, open("/verif/MANIFEST.json", "w"), indent=1)
 print("checks:", len(checks), "not_applicable:", len(na))
